@@ -188,6 +188,22 @@ def check_shape(t, acc):
       d2 = T()
       d2 @= Bits(W, b)
       if int(d2.to_bits()) != b: fail("imatmul-from-bits", b, b, int(d2.to_bits()))
+      # a plain int is the packed value, like a Bits object of the struct's width ( reg <<= 0 in a reset branch )
+      try:
+        d3 = T(); d3 @= b
+        if int(d3.to_bits()) != b: fail("imatmul-from-int", b, b, int(d3.to_bits()))
+        e3 = T(); e3 <<= b; e3._flip()
+        if int(e3.to_bits()) != b: fail("ilshift-from-int", b, b, int(e3.to_bits()))
+      except Exception as ex:
+        fail("assign-from-int-raised", b, "accepted", repr(ex)[:80])
+      if b == 0:
+        try:
+          d4 = T(); d4 @= (1 << W)
+          fail("int-too-wide-accepted", 1 << W, "ValueError", int(d4.to_bits()))
+        except ValueError:
+          pass
+        except Exception as ex:
+          fail("assign-from-int-raised", 1 << W, "ValueError", repr(ex)[:80])
       e = T()
       e <<= v
       if int(e.to_bits()) != 0: fail("ilshift-visible-before-flip", b, 0, int(e.to_bits()))
